@@ -34,29 +34,31 @@ Fixpoint digits (dig : Z -> option Z) (base : Z) (l : list Z) (acc n : Z) : Z * 
   | [] => (acc, n, [])
   end.
 
+Definition is_sign (c : Z) : bool := (c =? 45) || (c =? 43).
+(* an optional sign: (is it '-', what follows) *)
 Definition split_sign (l : list Z) : bool * list Z :=
   match l with
-  | 45 :: r => (true, r)
-  | 43 :: r => (false, r)
-  | _ => (false, l)
+  | c :: r => if is_sign c then (c =? 45, r) else (false, l)
+  | [] => (false, [])
   end.
 
 Definition is_x (c : Z) : bool := (c =? 120) || (c =? 88).
 
+(* does the text start with 0x / 0X ?  Some (what follows) *)
+Definition hex_prefix (l : list Z) : option (list Z) :=
+  match l with
+  | c0 :: x :: r => if (c0 =? 48) && is_x x then Some r else None
+  | _ => None
+  end.
+
 (* integer numerals: decimal (must fit, else not an integer) or hexadecimal (wraps modulo 2^64) *)
 Definition str2int (l : list Z) : option Z :=
   let '(neg, l) := split_sign (trim l) in
-  match l with
-  | 48 :: x :: r =>
-      if is_x x then
-        (let '(a, n, rest) := digits hex_digit 16 r 0 0 in
-         match rest with [] => if 0 <? n then Some (wrap64 (if neg then - a else a)) else None | _ => None end)
-      else
-        (let '(a, n, rest) := digits dec_digit 10 l 0 0 in
-         match rest with
-         | [] => if (0 <? n) && (a <=? (if neg then 2 ^ 63 else 2 ^ 63 - 1)) then Some (wrap64 (if neg then - a else a)) else None
-         | _ => None end)
-  | _ =>
+  match hex_prefix l with
+  | Some r =>
+      let '(a, n, rest) := digits hex_digit 16 r 0 0 in
+      match rest with [] => if 0 <? n then Some (wrap64 (if neg then - a else a)) else None | _ => None end
+  | None =>
       let '(a, n, rest) := digits dec_digit 10 l 0 0 in
       match rest with
       | [] => if (0 <? n) && (a <=? (if neg then 2 ^ 63 else 2 ^ 63 - 1)) then Some (wrap64 (if neg then - a else a)) else None
@@ -88,8 +90,8 @@ Definition mantissa_exp (dig : Z -> option Z) (base : Z) (marker : Z -> bool) (l
   let '(a, n1, rest) := digits dig base l 0 0 in
   let '(a, n2, rest) :=
     match rest with
-    | 46 :: r => digits dig base r a 0
-    | _ => (a, 0, rest)
+    | c :: r => if c =? 46 then digits dig base r a 0 else (a, 0, rest)
+    | [] => (a, 0, rest)
     end in
   if 0 <? n1 + n2 then
     match rest with
@@ -98,24 +100,16 @@ Definition mantissa_exp (dig : Z -> option Z) (base : Z) (marker : Z -> bool) (l
     end
   else None.
 
-Definition has_n (l : list Z) : bool := existsb (fun c => (c =? 110) || (c =? 78)) l.
-
+(* float numerals (inf and nan are not numerals: the grammar has no letter n) *)
 Definition str2float (l : list Z) : option f64 :=
-  if has_n l then None else
   let '(neg, l) := split_sign (trim l) in
-  match l with
-  | 48 :: x :: r =>
-      if is_x x then
-        match mantissa_exp hex_digit 16 is_p r with
-        | Some (M, nf, e) => Some (of_mant_exp (cond_Zopp neg M) (e - 4 * nf) neg)
-        | None => None
-        end
-      else
-        match mantissa_exp dec_digit 10 is_e l with
-        | Some (M, nf, e) => Some (dec_to_float neg M (e - nf))
-        | None => None
-        end
-  | _ =>
+  match hex_prefix l with
+  | Some r =>
+      match mantissa_exp hex_digit 16 is_p r with
+      | Some (M, nf, e) => Some (of_mant_exp (cond_Zopp neg M) (e - 4 * nf) neg)
+      | None => None
+      end
+  | None =>
       match mantissa_exp dec_digit 10 is_e l with
       | Some (M, nf, e) => Some (dec_to_float neg M (e - nf))
       | None => None
